@@ -1,7 +1,19 @@
+import ast
+import re
+
 from outsourcer import Code
 
 from .base import Expression
 from .constants import RESULT, STATUS
+
+
+def python_names(source_code):
+    """Returns the names that a piece of inline Python refers to."""
+    try:
+        tree = ast.parse(str(source_code).strip(), mode='eval')
+    except SyntaxError:
+        return set(re.findall(r'[A-Za-z_][A-Za-z_0-9]*', str(source_code)))
+    return {x.id for x in ast.walk(tree) if isinstance(x, ast.Name)}
 
 
 class PythonExpression(Expression):
@@ -14,6 +26,9 @@ class PythonExpression(Expression):
 
     def __str__(self):
         return f'`{self.source_code}`'
+
+    def python_names(self):
+        return python_names(self.source_code)
 
     def always_succeeds(self):
         return True
